@@ -340,8 +340,15 @@ def run_reply_concurrent(case) -> dict:
     world.default_delivery = {"mode": "rand", "seed": seed, "bias": ("small", "header", "geo")[seed % 3]}
     results = {}
 
+    # the second call starts a little later than the first (a fraction of a round trip up to several): one call is then between its
+    # bind and its request while the other one creates its connections
+    lat_hi = (50, 4000, 60000)[seed % 3]
+    stagger_s = (0.0, 0.3, 1.1, 2.5, 4.2, 7.0)[(seed // 3) % 6] * lat_hi / 1e6
+
     async def one(tag, rk):
         try:
+            if tag == "b" and stagger_s:
+                await asyncio.sleep(stagger_s)
             results[tag] = ("ok", await dclient._async_get_key(DC, sd, rk.root_key_id, -1, -1, -1))
         except Exception as e:  # noqa: BLE001
             results[tag] = ("raise", e)
